@@ -10,6 +10,8 @@ pub mod seed;
 pub mod stubs;
 pub mod toy;
 pub mod glue;
+#[cfg(feature = "real")]
+pub mod real;
 
 #[cfg(kani)]
 mod proofs;
